@@ -22,3 +22,7 @@ def run(rep: Report, repo: Repo, tier: str) -> None:
         misc_rules.rule_module_name_trim(rep, repo, "C04-R5")
     with rep.isolated():
         misc_rules.rule_no_lf_only_matching(rep, repo, "C04-R6")
+    # the paragraph writer must treat a line ending in CR like one ending in LF: it only splits and prefixes lines
+    from . import writer_rules
+    with rep.isolated():
+        writer_rules.rule_paragraph(rep, repo, "C04-R7")
